@@ -219,6 +219,9 @@ func (in *Interp) formatValue(fr *frame, out *fmtOut, spec string, verb byte, t 
 		out.str(in.ptrText(v))
 		return
 	}
+	if _, isSymScalar := v.(*symv); isSymScalar && (in.path == nil || !in.path.fmtFork) {
+		methods = false // do not run String()/Error() on a symbolic scalar receiver: placeholder below
+	}
 	if methods && strings.IndexByte("vsxXq", verb) >= 0 && !strings.Contains(spec, "#") {
 		var m *ssa.Function
 		if m = in.methodOf(t, "Error"); m == nil || m.Signature.Params().Len() != 0 || m.Signature.Results().Len() != 1 {
